@@ -172,6 +172,7 @@ class Runner:
         self.decl = {}              # id -> [(name, utility object)]
         self.lex = []               # lexical stack of open blocks (what the program text says)
         self.unclaimed = {}         # id -> list of RoutedConnection written in that block, not taken by an ifmax
+        self.rejected = {}          # id -> names carried by ifmax calls of that block that were refused
         self.trace = []             # tuples
         self.block_results = []     # (stmt, id, start, end) of top-level blocks
 
@@ -229,6 +230,8 @@ class Runner:
         except Exception as e:
             self.trace.append(("i", exc_token(e), globals_now()[2]))
             self.check_ifmax_error(name, cond, effs, inside, e)
+            if inside and name is not None:
+                self.rejected.setdefault(self.lex[-1], []).append(name)     # a refused action declares nothing
             raise
         self.trace.append(("i", "-", globals_now()[2]))
         self.check_ifmax_error(name, cond, effs, inside, None)
@@ -327,6 +330,17 @@ class Runner:
             return
         if len(blk) != len(names):
             self.fail("len-wrong", observed=len(blk), required=len(names), **case)
+        for n in dict.fromkeys(self.rejected.get(bid, [])):
+            if n in names:
+                continue
+            try:
+                got_r = blk[n]
+                self.fail("rejected-action-retrievable", key=n, observed="an action" if got_r is not None else None,
+                          required="KeyError: the ifmax that carried this name was refused", **case)
+            except KeyError:
+                pass
+            except Exception as e:  # noqa: BLE001
+                self.fail("getitem-raised", key=n, observed=type(e).__name__, **case)
         for i, (n, u) in enumerate(decl):
             try:
                 if blk[i] is not u:
